@@ -420,6 +420,20 @@ pub fn conform_opt<const K: usize>(t: &AffTree<K>, s: &Snap, x: &[Q], exact_valu
         })
     }));
     let real_eval = std::panic::catch_unwind(std::panic::AssertUnwindSafe(|| t.evaluate(&xf)));
+    // the same input stored with stride -1 (an owned array after invert_axis): equal as an array, so it must be
+    // routed and mapped identically
+    if xf.len() >= 2 {
+        let mut rev = ndarray::Array1::from(xf.iter().rev().cloned().collect::<Vec<f64>>());
+        rev.invert_axis(ndarray::Axis(0));
+        debug_assert_eq!(rev, xf);
+        let r2 = std::panic::catch_unwind(std::panic::AssertUnwindSafe(|| (t.find_terminal(t.tree.get_root(), &rev).map(|(_, labels)| labels), t.evaluate(&rev))));
+        let r1 = std::panic::catch_unwind(std::panic::AssertUnwindSafe(|| (t.find_terminal(t.tree.get_root(), &xf).map(|(_, labels)| labels), t.evaluate(&xf))));
+        match (r1, r2) {
+            (Ok(a), Ok(b)) if a == b => {}
+            (Err(_), Err(_)) => {}
+            (a, b) => return Err(format!("the input stored with stride -1 is treated differently: {:?} vs {:?} for the standard layout", b.ok(), a.ok())),
+        }
+    }
     match (mine, real) {
         (Err(e), Err(_)) => {
             let _ = e;
